@@ -17,8 +17,8 @@ func init() {
 		ID:    "C13",
 		Title: "A trace is stored, returned and sampled as a whole",
 		Decides: "sampling fails open: a sampler verdict is used only when Decide returned no error and a mask of the right length, Decide runs under a recover in the chain, and every verdict the merge chain returns on timeout / open circuit / error is the retain-all verdict (or exactly what the worker produced); " +
-			"the secondary indexes are pruned with the keep predicate of the very drop set the core merge produced in the same attempt, released only when the attempt ends; a guarded merge is published only when its revalidation still says Publish, otherwise nothing is committed.",
-		NotDecided: "which traces a sampler selects, whether fragments exist elsewhere (guard precision), staging of a trace across block boundaries inside mergeBlocks, completeness of query-by-trace-id.",
+			"the secondary indexes are pruned with the keep predicate of the very drop set the core merge produced in the same attempt, released only when the attempt ends; a guarded merge is published only when its revalidation still says Publish, otherwise nothing is committed; the evaluation stager's budget flushes (flushBefore / flushAfter) are unreachable while the next block continues the trace staged last; the trace-id primary-block search starts at the block that may hold the head of the trace (predicate: id <= first id; result n-1).",
+		NotDecided: "which traces a sampler selects, whether fragments exist elsewhere (guard precision), how mergeBlocks stages a trace across blocks beyond the two boundary guards decided here, completeness of query-by-trace-id beyond the start of the primary-block search.",
 		Technique:  "guarded-return on resolved error/length tests, defining-instruction analysis of returned verdicts, SSA binding identity of the keep closure, world pruning on the Publish flag",
 		Run:        runC13,
 	})
@@ -263,6 +263,38 @@ func runC13(c *core.Ctx) {
 		// the rejected path reports the error and acknowledges without committing
 		r.Check(len(ssax.Find(f, ssax.StoreTo(sibT.pkg+".mergerIntroduction.resultErr", nil))) > 0, rule, ssax.FuncName(f)+": rejection is reported through resultErr", r.fpos(f), "")
 	}
+
+	// a budget flush of the evaluation stager happens only at a trace boundary: never while the next block
+	// (or the pending block) still belongs to the trace staged last — the sampler must see a trace whole
+	{
+		rule := "c13.flush-at-trace-boundary"
+		flush := call("(*" + sibT.pkg + ".traceEvaluationStager).flush")
+		isPath := func(p string) func(ssa.Value) bool { return func(v ssa.Value) bool { return ssax.Path(v) == p } }
+		for _, spec := range []struct {
+			fn, x, y, what string
+		}{
+			{"(*traceEvaluationStager).flushBefore", "arg0", "recv.lastStagedTraceID", "the next block continues the trace staged last"},
+			{"(*traceEvaluationStager).flushAfter", "arg0", "arg1", "the next block continues the trace just completed"},
+		} {
+			f := r.fn(rule, sibT.pkg, spec.fn)
+			if f == nil {
+				continue
+			}
+			construct := ssax.FuncName(f) + ": no flush when " + spec.what
+			if len(ssax.Find(f, flush.M)) == 0 {
+				r.Undecide(rule, construct, r.fpos(f), "no flush call")
+				continue
+			}
+			if tgt, path, found := (ssax.Search{Target: flush.M, Edge: ssax.RelEdge(isPath(spec.x), isPath(spec.y), 0)}).From(f, nil); found {
+				r.Violate(rule, construct, r.pos(tgt), fmt.Sprintf("when %s (%s == %s) the staged chunk is still decided and written (blocks %s): the trace is split over two sampler decisions and can be kept in part and dropped in part", spec.what, spec.x, spec.y, blocksStr(path)))
+			} else {
+				r.Hold(rule, construct, r.fpos(f), "flush unreachable in the world "+spec.x+" == "+spec.y)
+			}
+		}
+		r.Floor(rule, 2)
+	}
+	// point lookups by trace id start at the primary block that may hold the head of the trace (shared with C08)
+	r.pbmSearchInclusive("c13.pbm-search-inclusive", sibT.pkg)
 }
 
 // collectCellValues: values that may flow into v through phis and local cells (captured variables).
